@@ -58,7 +58,7 @@ CLAIMED = {
             "text, none in strict mode (C07_brace_receipts, C07_brace_canonical_none, C07_brace_strict_no_rewrite); and FOR EVERY INPUT TEXT the curlyBrace records of a lenient run are, in order, "
             "in one-to-one correspondence with the brace steps of the run and with distinct IDENTIFIER tokens NAME<q> at the record's line and column, no other token kind ever owns one, a non-lenient run logs "
             "none (C07_braceall_matching, C07_braceall_record_has_token, C07_braceall_trace, C07_braceall_strict_none). Multi-word values headed by an integer or a quoted string (K::3 blind mice, "
-            "K::\"s\" x) and by true / false / null / a three-part version (C07_mwbool_read, C07_mwbool_receipts): exact value, exact receipts, convergence (C07_mwnum_read, C07_mwnum_receipts, C07_mwnum_receipts_exact, C07_mwnum_canonical_none, C03_mwnum_converge); finding C07N3 "
+            "K::\"s\" x) and by true / false / null / a three-part version (C07_mwbool_read, C07_mwbool_receipts) or any representable number lexeme, raw lexeme kept (C07_mwfloat_read, C07_mwfloat_receipts): exact value, exact receipts, convergence (C07_mwnum_read, C07_mwnum_receipts, C07_mwnum_receipts_exact, C07_mwnum_canonical_none, C03_mwnum_converge); finding C07N3 "
             "(a bracket group adjacent to the last word is dropped without receipt) is a theorem about the model (C07_mwnum_adjacent_bracket_silent) and replayed on the real code. "
             "PARTIAL: the other parser-level rewrites (multi-word values headed by booleans / null / versions, constructor repairs) and the tool routes (findings C07N1, C07N2) are decided by the search: expected receipts from the renderer's own layout "
             "arithmetic, compared as lists with positions; model/implementation receipt lists correspond exactly."),
